@@ -104,53 +104,48 @@ theorem axis_sign_irrelevant (ndim a : Nat) (h : a < ndim) :
     normAxis1 ndim ((a : Int) - (ndim : Int)) = normAxis1 ndim (a : Int) := by
   rw [normAxis1_neg ndim a h, normAxis1_nonneg ndim a h]
 
-/-- **shape_positions (1)**: for every duplicate-free list of label dims, in any order, output axis `i` (all but the
-    last) is the `i`-th kept dim of the user's array in ascending order -/
+/-- **shape_positions (1)**: `groupby_reduce` sorts the normalised axes; for every duplicate-free list of label dims,
+    named in any order, output axis `i` (all but the last) is the `i`-th kept dim of the user's array in ascending
+    order -/
 theorem kept_dims_positions (ndim byNdim : Nat) (axes : List Nat) (hby : byNdim ≤ ndim) (hnd : axes.Nodup)
     (hlt : ∀ a ∈ axes, a < ndim) (hge : ∀ a ∈ axes, ndim - byNdim ≤ a) (hlen : axes.length ≤ byNdim) :
-    outDims ndim (entryOf ndim byNdim axes) = keptDims ndim axes :=
-  outDims_eq_kept ndim byNdim axes hby hnd hlt hge hlen
+    outDims ndim (entryOf ndim byNdim (sortNat axes)) = keptDims ndim axes := by
+  rw [outDims_eq_kept ndim byNdim (sortNat axes) hby (nodup_sortNat axes hnd)
+    (fun a ha => hlt a (mem_sortNat.mp ha)) (fun a ha => hge a (mem_sortNat.mp ha))
+    (by rw [length_sortNat]; exact hlen), keptDims_sortNat]
 
 /-- **shape_positions (2)**: the eager result has the sizes of the kept dims followed by the group axis (last), and
     the shape announced by the graph (`out_inds = inds[:-len(axis)] + (inds[-1],)`) is the same -/
 theorem shape_positions (shape : List Nat) (byNdim G : Nat) (axes : List Nat) (hby : byNdim ≤ shape.length)
     (hnd : axes.Nodup) (hlt : ∀ a ∈ axes, a < shape.length) (hge : ∀ a ∈ axes, shape.length - byNdim ≤ a)
     (hlen : axes.length ≤ byNdim) :
-    eagerOutShape shape (entryOf shape.length byNdim axes) G
+    eagerOutShape shape (entryOf shape.length byNdim (sortNat axes)) G
         = (keptDims shape.length axes).map (fun d => shape.getD d 1) ++ [G]
-    ∧ chunkedOutShape shape (entryOf shape.length byNdim axes) G
-        = eagerOutShape shape (entryOf shape.length byNdim axes) G :=
-  shapes_agree shape byNdim G axes hby hnd hlt hge hlen
+    ∧ chunkedOutShape shape (entryOf shape.length byNdim (sortNat axes)) G
+        = eagerOutShape shape (entryOf shape.length byNdim (sortNat axes)) G := by
+  have h := shapes_agree shape byNdim G (sortNat axes) hby (nodup_sortNat axes hnd)
+    (fun a ha => hlt a (mem_sortNat.mp ha)) (fun a ha => hge a (mem_sortNat.mp ha))
+    (by rw [length_sortNat]; exact hlen)
+  rw [keptDims_sortNat] at h
+  exact h
 
-/-- **shape_positions (3)**, a proper subset of the label dims: `axis_` is renumbered in ascending order, the
-    map-reduce / cohorts graph is order-independent -/
-theorem chunked_graph_ok_subset (ndim byNdim : Nat) (axes : List Nat) (h : axes.length < byNdim) (hby : byNdim ≤ ndim)
-    (m : Method) (hm : m ≠ .blockwise) :
-    chunkedError ndim (entryOf ndim byNdim axes) m = none :=
-  chunked_ok_moved ndim byNdim axes h hby m hm
+/-- **shape_positions (3), FULL**: the graph has no order-dependent failure — for every duplicate-free list of dims,
+    named in any order (the sign is gone after `normAxis1`), for proper subsets of the label dims and for all of them,
+    and for every plan (map-reduce, cohorts, blockwise).  (Before the repairs b13f971 / 6345101 this held only with the
+    hypothesis "the last array axis is named last" and only for map-reduce / cohorts.) -/
+theorem chunked_graph_ok (ndim byNdim : Nat) (axes : List Nat) (hnd : axes.Nodup) (hlt : ∀ a ∈ axes, a < ndim)
+    (m : Method) :
+    chunkedError ndim (entryOf ndim byNdim (sortNat axes)) m = none :=
+  chunked_ok_sorted ndim byNdim axes hnd hlt m
 
-/- FULL STATEMENT (what the property demands; FALSE for the model, i.e. for the code):
-     ∀ ndim byNdim axes m, axes.Nodup → (∀ a ∈ axes, ndim - byNdim ≤ a ∧ a < ndim) →
-       chunkedError ndim (entryOf ndim byNdim axes) m = none
-   When ALL label dims are reduced nothing is moved, `axis_` keeps the user's order, and `_simple_combine` reduces
-   along `axis[:-1] + (-2,)`: a repeated axis unless the last array dim comes last.  Named hypothesis of the partial
-   theorem: `axes.getLast? = some (ndim - 1)`; its necessity: `chunked_unsorted_counterexample`. -/
-theorem chunked_graph_ok_all_partial (ndim byNdim : Nat) (axes : List Nat) (h : ¬ axes.length < byNdim)
-    (hnd : axes.Nodup) (hlast : axes.getLast? = some (ndim - 1)) (m : Method) (hm : m ≠ .blockwise) :
-    chunkedError ndim (entryOf ndim byNdim axes) m = none :=
-  chunked_ok_all_partial ndim byNdim axes h hnd hlast m hm
-
-/-- eager input accepts `axis=(2,1)` on a 3-D array with 2-D labels, chunked input raises (finding C08-F1) -/
-theorem chunked_unsorted_counterexample :
+/-- the `sorted(...)` in the entry is load-bearing: `_simple_combine` itself (`axis[:-1] + (DUMMY_AXIS,)`) still
+    depends on the order of `axis_`; the entry never hands it an unsorted one -/
+theorem sorted_entry_is_needed :
     chunkedError 3 (entryOf 3 2 [2, 1]) .mapreduce = some "ValueError"
-    ∧ chunkedError 3 (entryOf 3 2 [1, 2]) .mapreduce = none
-    ∧ eagerOutShape [2, 3, 4] (entryOf 3 2 [2, 1]) 5 = [2, 5] := by
-  decide +kernel
-
-/-- blockwise graphs with three reduced axes announce the wrong number of dims (finding C08-F2) -/
-theorem blockwise_three_axes_counterexample :
-    chunkedError 3 (entryOf 3 3 [0, 1, 2]) .blockwise = some "ValueError"
-    ∧ chunkedError 3 (entryOf 3 3 [0, 1, 2]) .mapreduce = none := by
+    ∧ chunkedError 3 (entryOf 3 2 (sortNat [2, 1])) .mapreduce = none
+    ∧ (entry 3 2 (some [2, 1])).toOption = (entry 3 2 (some [1, 2])).toOption
+    ∧ (entry 3 2 (some [-1, 1])).toOption = (entry 3 2 (some [1, 2])).toOption
+    ∧ (entry 3 2 (some [1, 2])).toOption = some (entryOf 3 2 [1, 2]) := by
   decide +kernel
 
 /-! ## non-vacuity: the hypotheses are satisfiable on concrete, non-trivial inputs -/
@@ -181,8 +176,14 @@ example : slotFinal .sum Val.zero 1 (.fin (-7)) [] = .fin (-7) ∧ slotFinal .su
   decide +kernel
 
 /-- metadata: a 4-D array, 3-D labels (dims 1,2,3), `axis=(3,1)`: dims 0 and 2 are kept, in that order -/
-example : outDims 4 (entryOf 4 3 [3, 1]) = [0, 2] ∧ eagerOutShape [2, 3, 4, 5] (entryOf 4 3 [3, 1]) 7 = [2, 4, 7]
-    ∧ (entryOf 4 3 [3, 1]).order = [0, 2, 3, 1] := by decide
+example : outDims 4 (entryOf 4 3 (sortNat [3, 1])) = [0, 2]
+    ∧ eagerOutShape [2, 3, 4, 5] (entryOf 4 3 (sortNat [3, 1])) 7 = [2, 4, 7]
+    ∧ (entryOf 4 3 (sortNat [3, 1])).order = [0, 2, 1, 3] := by decide
+
+/-- repaired behaviour: three reduced axes under the blockwise plan, and all label dims named in descending order -/
+example : chunkedError 3 (entryOf 3 3 (sortNat [0, 1, 2])) .blockwise = none
+    ∧ chunkedError 3 (entryOf 3 3 (sortNat [2, 1, 0])) .mapreduce = none
+    ∧ chunkedError 3 (entryOf 3 3 (sortNat [2, 0, 1])) .cohorts = none := by decide
 
 example : normalizeAxes 4 [-1, 1] = some [3, 1] ∧ normalizeAxes 4 [-1, 3] = none ∧ normalizeAxes 4 [4] = none := by decide
 
